@@ -54,11 +54,38 @@ def c01_family(rng, k, max_atoms=120):
     box; every pbc combination; orthogonal / skewed / degenerate cells; wrapped or unwrapped positions"""
     from ase import Atoms
     from ase.build import bulk, fcc111, molecule
-    kind = ("gas", "rattled", "defective", "substituted", "two-crystals", "molecules", "degenerate", "skewed")[k % 8]
+    kind = ("gas", "rattled", "defective", "substituted", "two-crystals", "molecules", "degenerate", "skewed",
+            "degenerate-oblique", "substituted-heavy")[k % 10]
     if kind == "gas":
         n = int(rng.integers(1, 60))
         cell = np.diag(rng.uniform(4, 12, 3))
         a = Atoms(numbers=rng.choice([1, 6, 8, 14, 29], n), positions=rng.random((n, 3)) @ cell, cell=cell)
+    elif kind == "degenerate-oblique":
+        # zero cell vector(s) along non-periodic directions while the remaining vectors are NOT axis aligned:
+        # a tilted / rotated sheet or slab with c = 0, an oblique finite cluster with two zero vectors, permuted axes
+        import crystals
+        base = [("Cu", "fcc", 3.6), ("Fe", "bcc", 2.87), ("Si", "diamond", 5.43)][int(rng.integers(0, 3))]
+        a = bulk(base[0], base[1], a=base[2], cubic=True) * (2, 2, 1)
+        nz = int(rng.integers(1, 3))
+        order = [int(i) for i in rng.permutation(3)]
+        cell = np.array(a.get_cell())[order][:, order]      # relabel the axes consistently (cell rows and Cartesian columns)
+        a.set_cell(cell, scale_atoms=False)
+        a.set_positions(a.get_positions()[:, order])
+        R = crystals.random_rotation(rng)
+        a.set_cell(np.array(a.get_cell()) @ R.T, scale_atoms=True)
+        cell = np.array(a.get_cell())
+        zero = [int(i) for i in rng.choice(3, nz, replace=False)]
+        cell[zero] = 0
+        a.set_cell(cell, scale_atoms=False)
+        a.set_pbc([i not in zero and bool(rng.integers(0, 2)) for i in range(3)])
+        return _finish(a, rng, kind, max_atoms, keep_pbc=True)
+    elif kind == "substituted-heavy":
+        # 10-25 % of the atoms replaced: overlapping regions that are not merged at high merge thresholds
+        el, st, lat, sub = [("Si", "diamond", 5.43, 32), ("Cu", "fcc", 3.6, 47), ("NaCl", "rocksalt", 5.64, 19), ("Al", "fcc", 4.05, 31)][int(rng.integers(0, 4))]
+        a = bulk(el, st, a=lat, cubic=True) * tuple(int(v) for v in rng.integers(2, 4, 3))
+        z = a.get_atomic_numbers()
+        z[rng.choice(len(a), max(2, int(len(a) * rng.uniform(0.1, 0.25))), replace=False)] = sub
+        a.set_atomic_numbers(z)
     elif kind in ("rattled", "defective", "substituted", "skewed"):
         el, st, lat = [("Cu", "fcc", 3.6), ("Fe", "bcc", 2.87), ("Si", "diamond", 5.43), ("NaCl", "rocksalt", 5.64), ("Al", "fcc", 4.05)][int(rng.integers(0, 5))]
         a = bulk(el, st, a=lat, cubic=True) * tuple(int(v) for v in rng.integers(2, 4, 3))
@@ -114,11 +141,13 @@ def _finish(a, rng, kind, max_atoms, keep_pbc=False):
     return a, kind
 
 
-def sbc_params(rng, k):
+def sbc_params(rng, k, kind=None):
+    if kind == "substituted-heavy":
+        return {"merge_threshold": [0.8, 1.0, 0.5][k % 3], "pos_tol": [0.5, 0.3, 0.7][(k // 3) % 3]}
     if k % 3 == 0:
         return {}
     return {"bond_threshold": float(rng.uniform(0.4, 1.0)), "pos_tol": float(rng.uniform(0.3, 0.9)), "max_cell_size": float(rng.uniform(4, 8)),
-            "merge_threshold": float(rng.uniform(0.2, 0.8)), "radii": ["covalent", "vdw", "vdw_covalent"][int(rng.integers(0, 3))]}
+            "merge_threshold": float(rng.uniform(0.2, 1.0)), "radii": ["covalent", "vdw", "vdw_covalent"][int(rng.integers(0, 3))]}
 
 
 def snapshot(a):
